@@ -344,6 +344,13 @@ class Cursor:
     def fetchall(self):
         return self.__symseq__()
 
+    @property
+    def rowcount(self):
+        c = cur()
+        n = c.fresh(c.fresh_name(f"q{self.ordinal}.rowcount"), INT)
+        c.pc.append(tm.Ge(n, tm.mk_int(0)))
+        return wrap_int(n)
+
     def __symseq__(self):
         c = cur()
         n = c.fresh_name(f"q{self.ordinal}.rows")
@@ -361,6 +368,7 @@ class Cursor:
 
             q.elem = elem
         q.cursor = self
+        self.db.last_select_len = q.length  # ghost: number of rows of the most recent iterated SELECT
         return q
 
     def __iter__(self):
@@ -377,14 +385,16 @@ class DbStub:
         self.name = name
         self.queries = [(sqlfront.normalize(q[0]), *q[1:]) for q in queries]
         self.count = 0
+        self.last_select_len = tm.mk_int(0)
         self.version = 0  # bumped by every statement that may write; ghost facts are per version
 
-    def fact(self, name, *args, sort=None):
+    def fact(self, name, *args, sort=None, versioned=True):
         """Ghost: the value of a stored attribute in the current database version, e.g.
         fact('detached', i).  Facts about one version say nothing about the next."""
         c = cur()
         ts = [sym.I(a) if not isinstance(a, (SymStr, str)) else S(a) for a in args]
-        f = c.decls.fun(f"db.{name}.v{self.version}", [t.sort for t in ts], sort or BOOL)
+        suffix = f".v{self.version}" if versioned else ""
+        f = c.decls.fun(f"db.{name}{suffix}", [t.sort for t in ts], sort or BOOL)
         return f(*ts)
 
     def bump(self):
@@ -403,7 +413,7 @@ class DbStub:
             if norm.startswith(q[0]):
                 rowspec = q[1]
                 facts = q[2] if len(q) > 2 else None
-                always = norm.startswith(("SELECT EXISTS", "SELECT COUNT", "SELECT count"))
+                always = norm.startswith(("SELECT EXISTS", "SELECT COUNT", "SELECT count")) or (len(q) > 3 and q[3])
                 break
         if not norm.upper().startswith(("SELECT", "WITH", "EXPLAIN", "PRAGMA")) or \
                 any(w in norm.upper().split() for w in ("UPDATE", "INSERT", "DELETE", "REPLACE")):
@@ -428,7 +438,11 @@ class DbStub:
         return False
 
     def __havoc__(self, label):
-        pass
+        c = cur()
+        n = c.fresh(c.fresh_name(label + ".last_select_len"), INT)
+        c.pc.append(tm.Ge(n, tm.mk_int(0)))
+        self.last_select_len = n
+        self.bump()
 
     def __snapshot__(self):
         return self
@@ -489,3 +503,72 @@ class _PathStr(ty._Str):
 
 
 PathStr = _PathStr()
+
+
+# --------------------------------------------------------------------------- file-system effects of path.Path
+
+
+class DirListing:
+    """`path.iterdir()`: only its emptiness is observable."""
+
+    def __init__(self, path):
+        c = cur()
+        self.path = path
+        self.nonempty = SymBool(c.fresh(c.fresh_name("iterdir.nonempty"), BOOL))
+        c.event("Path.iterdir", path=path, nonempty=self.nonempty)
+
+    def __symany__(self):
+        return self.nonempty
+
+
+def _path_fun(name, t: tm.T) -> tm.T:
+    return cur().decls.fun(name, [STR], STR)(t)
+
+
+def _sympath_remove(self):
+    c = cur()
+    ev = c.event("Path.remove", path=self)
+    fails = c.fresh(c.fresh_name("remove.fails"), BOOL)
+    if c.fork(fails):
+        raise FileNotFoundError(2, "remove failed [assumed contract of Path.remove]")
+    return self
+
+
+def _sympath_rmdir(self):
+    c = cur()
+    c.event("Path.rmdir", path=self)
+    fails = c.fresh(c.fresh_name("rmdir.fails"), BOOL)
+    if c.fork(fails):
+        raise OSError("rmdir failed [assumed contract of Path.rmdir]")
+    return self
+
+
+SymPath.remove = _sympath_remove
+SymPath.rmdir = _sympath_rmdir
+SymPath.iterdir = lambda self: DirListing(self)
+SymPath.parent = property(lambda self: SymPath(_path_fun("posix.dirname", self.t)))
+SymPath.name = property(lambda self: wrap_str(_path_fun("posix.basename", self.t)))
+SymPath.normpath = lambda self: SymPath(_path_fun("posix.normpath", self.t))
+trusted("path.Path.remove / rmdir delete exactly the named path or raise OSError; iterdir lists the directory; "
+        "parent / name / normpath are posixpath.dirname / basename / normpath (uninterpreted here)")
+
+
+class Reporter:
+    """The reporter client: an awaitable callable without effect on the workflow."""
+
+    def __init__(self, name="reporter"):
+        self.name = name
+
+    def __call__(self, *a, **k):
+        cur().event("report", args=a)
+        return None
+
+    def __getattr__(self, name):
+        def meth(*a, **k):
+            cur().event("report." + name, args=a)
+            return None
+
+        return meth
+
+
+engine.GLOBAL_OVERRIDES.setdefault("*", {}).update(Path=Path, logger=vcrt._NoLog())
